@@ -283,11 +283,12 @@ Section StreamFetchProofs.
   Qed.
 
   (* ---------------------------------------------------------------- the whole network part of a lookup *)
-  Notation lookup_stream := (lookup_stream L llen PS init_ps recog bump lineno T finish split p).
+  Variable note_src report_src : urlsrc.
+  Notation lookup_stream := (lookup_stream L llen PS init_ps recog bump lineno T finish split p note_src report_src).
 
   Definition resp_ok (sr : server * resp) : Prop :=
     match snd sr with
-    | RHead _ b script => split_ok b /\ delivered script = Z.of_nat (length b)
+    | RHead _ _ b script => split_ok b /\ delivered script = Z.of_nat (length b)
     | RNoHead => True
     end.
   Definition ids (l : list (server * resp)) : list Z := map (fun sr => s_id (fst sr)) l.
@@ -304,12 +305,13 @@ Section StreamFetchProofs.
     match snd (fst (lookup_stream f ss)) with
     | None => cache_eq f' f /\ snd (lookup_stream f ss) = ids ss
     | Some (t, u) =>
-        exists pre s code b script post,
-          ss = pre ++ (s, RHead code b script) :: post /\ u = s_url s /\ code < 400 /\ fails script = false /\
+        exists pre s code final b script post,
+          ss = pre ++ (s, RHead code final b script) :: post /\ u = pick_url report_src (s_url s) final /\
+          code < 400 /\ fails script = false /\
           (exists ps x, drive_stream (fst (split b)) (snd (split b)) script = Ret (C09.Model.ROk ps, x) /\
                         finish ps = Some t /\ cbsum (core x) = Z.of_nat (length b)) /\
-          commit_post p f f' b u /\
-          snd (lookup_stream f ss) = ids (pre ++ [(s, RHead code b script)])
+          commit_post p f f' b (pick_url note_src (s_url s) final) /\
+          snd (lookup_stream f ss) = ids (pre ++ [(s, RHead code final b script)])
     end.
   Proof.
     induction ss as [|[s r] rest IH]; intros f Hok; cbn [Stream.lookup_stream].
@@ -322,35 +324,36 @@ Section StreamFetchProofs.
                 match snd (fst R) with
                 | None => cache_eq (fst (fst R)) f /\ snd R = ids ((s, r) :: rest)
                 | Some (t, u) =>
-                    exists pre s0 code b script post,
-                      (s, r) :: rest = pre ++ (s0, RHead code b script) :: post /\ u = s_url s0 /\ code < 400 /\
+                    exists pre s0 code final b script post,
+                      (s, r) :: rest = pre ++ (s0, RHead code final b script) :: post /\
+                      u = pick_url report_src (s_url s0) final /\ code < 400 /\
                       fails script = false /\
                       (exists ps x, drive_stream (fst (split b)) (snd (split b)) script = Ret (C09.Model.ROk ps, x) /\
                                     finish ps = Some t /\ cbsum (core x) = Z.of_nat (length b)) /\
-                      commit_post p f (fst (fst R)) b u /\
-                      snd R = ids (pre ++ [(s0, RHead code b script)])
+                      commit_post p f (fst (fst R)) b (pick_url note_src (s_url s0) final) /\
+                      snd R = ids (pre ++ [(s0, RHead code final b script)])
                 end).
       { intros g Hgc Hgt. specialize (IH g Hrest). cbv zeta in IH.
         destruct (lookup_stream g rest) as [[g' res] lg]. cbn [fst snd] in *.
         destruct IH as [I1 [I2 I3]]. split; [rewrite I1; exact Hgt|]. split; [intros q Hq; rewrite I2 by exact Hq; apply Hgc|].
         destruct res as [[t u]|].
-        - destruct I3 as [pre [s0 [code [b [script [post [E [Eu [Hcode [Hfl [Hdr [Hpost Hlg]]]]]]]]]]]].
-          exists ((s, r) :: pre), s0, code, b, script, post.
+        - destruct I3 as [pre [s0 [code [final [b [script [post [E [Eu [Hcode [Hfl [Hdr [Hpost Hlg]]]]]]]]]]]]].
+          exists ((s, r) :: pre), s0, code, final, b, script, post.
           split; [rewrite E; reflexivity|]. split; [exact Eu|]. split; [exact Hcode|]. split; [exact Hfl|].
           split; [exact Hdr|]. split; [eapply commit_post_eq; [exact Hgc|exact Hpost]|].
           rewrite Hlg. reflexivity.
         - destruct I3 as [I3 Hlg]. split; [intros q; rewrite I3; apply Hgc|]. rewrite Hlg. reflexivity. }
-      destruct r as [|code b script].
+      destruct r as [|code final b script].
       + apply Hskip; [intros q; reflexivity|reflexivity].
       + destruct (Z.leb_spec 400 code) as [Hge|Hlt]; [apply Hskip; [intros q; reflexivity|reflexivity]|].
         unfold resp_ok in Hr. cbn [snd] in Hr. destruct Hr as [Hs Hd].
-        pose proof (stream_fetch_cases (s_env s) (s_url s) f b script Hs Hd) as H. cbv zeta in H.
-        destruct (stream_fetch (s_env s) (s_url s) f b script) as [f1 res1]. cbn [fst snd] in H.
+        pose proof (stream_fetch_cases (s_env s) (pick_url note_src (s_url s) final) f b script Hs Hd) as H. cbv zeta in H.
+        destruct (stream_fetch (s_env s) (pick_url note_src (s_url s) final) f b script) as [f1 res1]. cbn [fst snd] in H.
         destruct H as [H1 [H2 H3]].
         destruct res1 as [t|c| |].
         * cbn [fst snd]. destruct H3 as [Hfl [Hdr Hpost]].
           split; [exact H1|]. split; [exact H2|].
-          exists [], s, code, b, script, rest. cbn [app].
+          exists [], s, code, final, b, script, rest. cbn [app].
           split; [reflexivity|]. split; [reflexivity|]. split; [exact Hlt|]. split; [exact Hfl|].
           split; [exact Hdr|]. split; [exact Hpost|reflexivity].
         * destruct H3 as [H3 _]. apply Hskip; assumption.
